@@ -5,6 +5,13 @@ VERIF = os.path.dirname(os.path.dirname(os.path.abspath(__file__)))
 props = [json.loads(l) for l in open(os.path.join(VERIF, "properties.jsonl"))]
 
 CLAIMED = {
+    "C14": dict(
+        text="Hp.tla states the constrained Hodrick-Prescott problem and solves its optimality conditions exactly (fraction-free elimination in "
+             "TLA+); TLC verifies on every scenario that the solution satisfies the KKT system, meets the constraints exactly and returns a straight "
+             "line unchanged. Every scenario (observation patterns, level/change constraints inside and outside the data, output spans, log mode, "
+             "two-variant stacks) is replayed through hpf / hpf_trend / hpf_gap: trend = exact optimum, trend+gap = data, span only clips.",
+        note="Trusted: TLC, numpy.linalg.solve. Bounds: 3-5 data periods, lambda in {1,4}, KKT dimension <= 7 (32-bit integers). lonf is not covered.",
+        design="5/C14", technique="TLA+ spec (Hp over LinSolve) model-checked by TLC; every TLC-computed scenario replayed into irispie"),
     "C20": dict(
         text="ModelObjects.tla keeps, per handle, the sequence of variant records [parameters, steady-for, solved-for]; assign/steady/solve/"
              "alter_num_variants/copy/pickle/dill/save-load are actions; independence (an action changes only its own handle) and duplicate "
